@@ -21,8 +21,10 @@ from .srcmodel import Func, Repo, unparse, walk_no_nested, owner_class
 
 ATTRS = {'dataset': 'dataset', '_dataset': 'dataset',
          'initial_individual_estimates': 'initial_individual_estimates',
-         '_initial_individual_estimates': 'initial_individual_estimates'}
-PASS_ATTRS = {'model', '_model'}          # model_entry.model carries the same objects
+         '_initial_individual_estimates': 'initial_individual_estimates',
+         # plain dict kept in the NONMEM internals of a model and shared by every model derived from it
+         'compartment_map': 'compartment_map', '_compartment_map': 'compartment_map'}
+PASS_ATTRS = {'model', '_model', 'internals', '_internals'}   # model_entry.model / model.internals carry the same objects
 ALWAYS_MUTATING = {'insert', 'pop', 'update', 'clear', 'popitem', 'setdefault', '__setitem__', '__delitem__',
                    'append_inplace', 'sort', 'extend', 'append', 'remove', 'put', 'itemset', 'fill', 'resize'}
 # list-like mutators only count on D-tagged (DataFrame) values for pandas names:
@@ -336,7 +338,14 @@ class AliasAnalysis:
                 return env
             if node.kind == 'for':
                 do_calls(a.iter, env)
-                assign(a.target, set(), env)
+                # `for d in (old, new): d[k] = v` - the loop variable IS each of the listed objects in turn
+                if isinstance(a.iter, (ast.Tuple, ast.List, ast.Set)) and isinstance(a.target, ast.Name):
+                    u = set()
+                    for el in a.iter.elts:
+                        u |= tags(el, env)
+                    assign(a.target, u, env)
+                else:
+                    assign(a.target, set(), env)
                 return env
             if node.kind == 'with_enter':
                 do_calls(a, env)
